@@ -71,7 +71,7 @@ func init() {
 	connVals := []string{"", "", "close", "Close", "CLOSE", "keep-alive", "Keep-Alive", "keep-alive, close", "keep-alive,close", "foo,close", "close, foo", "keep-alive,\tclose", "upgrade", "closed", "xclose", "close;q=1", "keep-alive\x00close2"}
 	Register(&Prop{
 		ID: "C10",
-		Rule: "server: histories of 1..5 pipelined requests (HTTP/1.0|1.1, Connection token lists in several cases/positions, one or two Connection lines, handler asking for close through ctx.SetConnectionClose / Response.Header.Set / a TimeoutErrorWithResponse response, leaving a streamed request body unread, or answering with a Connection: Upgrade response without hijacking) x DisableKeepalive x MaxRequestsPerConn 0..3, " +
+		Rule: "server: histories of 1..5 pipelined requests (HTTP/1.0|1.1, Connection token lists in several cases/positions, one or two Connection lines, handler asking for close through ctx.SetConnectionClose / Response.Header.Set / a TimeoutErrorWithResponse response, leaving a streamed request body unread, answering with a Connection: Upgrade response without hijacking, or with a body stream of unknown size / a body stream writer) x DisableKeepalive x MaxRequestsPerConn 0..3, " +
 			"followed by a sentinel request that is served iff the connection is still open; client: HostClient doing two sequential requests against a scripted in-memory server whose first response carries a Connection variant (buffered, streamed, and streamed with the caller deleting the Connection header before it closes the stream); " +
 			"non-trivial = some request or response carries a Connection field or a limit is set; distinct = distinct input",
 		Parallel:    true,
@@ -117,6 +117,14 @@ func init() {
 						// a non-hijacked response that carries the Upgrade connection option (e.g. 426 Upgrade Required): whether
 						// the connection is closed after it must still be announced
 						q = "?sc=426&hdr=Connection:Upgrade&hdr=Upgrade:websocket"
+						hc = false
+					case 7:
+						// the response body is a stream of unknown size (sent chunked)
+						q = "?stream=-1:10"
+						hc = false
+					case 8:
+						// ... or written through a body stream writer
+						q = "?sw=30"
 						hc = false
 					case 5:
 						// StreamRequestBody: a request whose 9000-byte body the handler leaves unread (the connection
@@ -333,7 +341,7 @@ func init() {
 					}
 					hmode := byte(0)
 					if r.Chance(16) {
-						hmode = byte(1 + r.Intn(6))
+						hmode = byte(1 + r.Intn(8))
 					}
 					args = append(args, B("R"), []byte{byte(b2i(r.Chance(25)))}, []byte{hmode}, B(c1), B(c2))
 				}
